@@ -241,25 +241,45 @@ func (o rop) run(env *ropEnv) (res string, err error) {
 
 var iceFrameRe = regexp.MustCompile(`github\.com/blugelabs/ice/v2\.`)
 
-// runGuarded runs the op on its own goroutine under a watchdog. It returns
-// blocked=true with the goroutine's stack when the call did not return and
-// sits in sync.(*Mutex).Lock under an ice frame.
-func runGuarded(o rop, env *ropEnv) (res string, err error, blocked bool, infra string) {
-	type out struct {
-		res string
-		err error
-	}
-	ch := make(chan out, 1)
+// opWorker executes the calls of one run sequentially on ONE goroutine (so that
+// pooled per-P state such as the visit context pool behaves as it does for a
+// single-threaded caller); the test goroutine waits for every result under a
+// watchdog.
+type opWorker struct {
+	in  chan rop
+	out chan opResult
+}
+
+type opResult struct {
+	res string
+	err error
+}
+
+func newOpWorker(env *ropEnv) *opWorker {
+	w := &opWorker{in: make(chan rop), out: make(chan opResult, 1)}
 	go func() {
-		r, e := c19Call(o, env)
-		ch <- out{r, e}
+		for o := range w.in {
+			r, e := c19Call(o, env)
+			w.out <- opResult{r, e}
+		}
 	}()
+	return w
+}
+
+func (w *opWorker) stop() { close(w.in) }
+
+// run sends one call to the worker and waits for its result. blocked=true (with
+// the goroutine's stack in res) when the call does not return and sits in
+// sync.(*Mutex).Lock under an ice frame; infra != "" when it does not return for
+// another reason.
+func (w *opWorker) run(o rop) (res string, err error, blocked bool, infra string) {
+	w.in <- o
 	deadline := time.After(30 * time.Second)
 	tick := time.NewTicker(2 * time.Second)
 	defer tick.Stop()
 	for {
 		select {
-		case x := <-ch:
+		case x := <-w.out:
 			return x.res, x.err, false, ""
 		case <-tick.C:
 			if st := findBlockedStack(); st != "" {
@@ -271,6 +291,16 @@ func runGuarded(o rop, env *ropEnv) (res string, err error, blocked bool, infra 
 			return "", nil, false, "call did not return within 30s and is not blocked on an ice mutex:\n" + string(buf)
 		}
 	}
+}
+
+// runGuarded runs a single call on a fresh worker.
+func runGuarded(o rop, env *ropEnv) (res string, err error, blocked bool, infra string) {
+	w := newOpWorker(env)
+	res, err, blocked, infra = w.run(o)
+	if !blocked && infra == "" {
+		w.stop()
+	}
+	return res, err, blocked, infra
 }
 
 // c19Call exists so that the watchdog can find the goroutine by this frame.
@@ -385,6 +415,17 @@ func genRops(t *rapid.T, c *SegCase) []rop {
 		pair := []rop{{kind: 1, field: a.f, term: a.t, early: true}, {kind: 1, field: b.f, term: b.t, reuse: true}}
 		ops = append(ops[:at:at], append(pair, ops[at:]...)...)
 	}
+	// segments with several 128-document stored blocks: visit one block, another one, and that one again
+	if c.Exp.N > 128 && rapid.IntRange(0, 1).Draw(t, "storedTriple") == 0 {
+		d1 := rapid.IntRange(0, c.Exp.N-1).Draw(t, "tripleDoc1")
+		d2 := rapid.IntRange(0, c.Exp.N-1).Draw(t, "tripleDoc2")
+		if d1/128 == d2/128 {
+			d2 = (d2 + 128) % c.Exp.N
+		}
+		at := rapid.IntRange(0, len(ops)).Draw(t, "tripleAt")
+		triple := []rop{{kind: 2, doc: uint64(d1)}, {kind: 2, doc: uint64(d2)}, {kind: 2, doc: uint64(d2)}}
+		ops = append(ops[:at:at], append(triple, ops[at:]...)...)
+	}
 	return ops
 }
 
@@ -431,9 +472,10 @@ func c19Prop(st *CaseStats, fam int) func(t *rapid.T) {
 		fr.arm(-1)
 		good := make([]string, len(ops))
 		opStart := make([]int, len(ops))
+		w0 := newOpWorker(env)
 		for i, o := range ops {
 			opStart[i] = int(fr.calls.Load())
-			res, err, blocked, infra := runGuarded(o, env)
+			res, err, blocked, infra := w0.run(o)
 			if infra != "" {
 				t.Fatalf("INFRA: %s", infra)
 			}
@@ -442,6 +484,7 @@ func c19Prop(st *CaseStats, fam int) func(t *rapid.T) {
 			}
 			good[i] = res
 		}
+		w0.stop()
 		total := int(fr.calls.Load())
 		inner := 0
 		nt := false
@@ -482,6 +525,12 @@ func c19Prop(st *CaseStats, fam int) func(t *rapid.T) {
 				modes = append(modes, faultMode{k, win})
 			}
 		}
+		// a single failing read at each of the first reads of every call
+		for _, s0 := range opStart {
+			for j := 0; j <= 8 && s0+j <= total; j++ {
+				modes = append(modes, faultMode{s0 + j, 1})
+			}
+		}
 		for _, fm := range modes {
 			k := fm.k
 			env, fr := fresh()
@@ -491,9 +540,10 @@ func c19Prop(st *CaseStats, fam int) func(t *rapid.T) {
 				fr.arm(int64(k))
 			}
 			firstFail := -1
+			w := newOpWorker(env)
 			for i, o := range ops {
 				before := fr.failures.Load()
-				res, err, blocked, infra := runGuarded(o, env)
+				res, err, blocked, infra := w.run(o)
 				inner++
 				if infra != "" {
 					t.Fatalf("INFRA: %s", infra)
@@ -532,6 +582,7 @@ func c19Prop(st *CaseStats, fam int) func(t *rapid.T) {
 					}
 				}
 			}
+			w.stop()
 			if k >= 1 && firstFail >= 0 && firstFail < len(ops)-1 {
 				nt = true
 			}
